@@ -1,3 +1,4 @@
 pub mod name;
 pub mod wire;
 pub mod zone;
+pub mod cache;
